@@ -41,19 +41,27 @@ type vfC08Delivery struct {
 	end     uint64 // EndSequence (unused ranges), else 0
 	skipped bool
 	docID   string
+	// inSkippedAtDelivery: at the moment the entry reached the channel cache its sequence was still
+	// listed as skipped (only probed for late entries)
+	inSkippedAtDelivery bool
 }
 
 type vfC08Rec struct {
-	mu   sync.Mutex
-	log  []vfC08Delivery
-	init []uint64
+	mu      sync.Mutex
+	log     []vfC08Delivery
+	init    []uint64
+	skipped *SkippedSequenceSkiplist // the cache's skipped list, probed at delivery time
 }
 
 var _ ChannelCache = &vfC08Rec{}
 
 func (r *vfC08Rec) add(sink byte, e *LogEntry) {
+	d := vfC08Delivery{sink: sink, seq: e.Sequence, end: e.EndSequence, skipped: e.Skipped, docID: e.DocID}
+	if e.Skipped && r.skipped != nil {
+		d.inSkippedAtDelivery = r.skipped.Contains(e.Sequence)
+	}
 	r.mu.Lock()
-	r.log = append(r.log, vfC08Delivery{sink: sink, seq: e.Sequence, end: e.EndSequence, skipped: e.Skipped, docID: e.DocID})
+	r.log = append(r.log, d)
 	r.mu.Unlock()
 }
 func (r *vfC08Rec) drain() []vfC08Delivery {
@@ -242,6 +250,7 @@ func vfC08NewCache(env *vfC08Env, rec *vfC08Rec, initial uint64, maxNum int) (*c
 	if err := c.Init(env.ctx, env.dbc, rec, nil, vfC08Options(maxNum), env.dbc.MetadataKeys); err != nil {
 		return nil, err
 	}
+	rec.skipped = c.skippedSeqs
 	if err := c.Start(initial); err != nil {
 		return nil, err
 	}
@@ -288,6 +297,7 @@ func (s *vfC08Sim) clone() *vfC08Sim {
 	}
 	c.skippedSeqs.NumCumulativeSkippedSequences = o.skippedSeqs.NumCumulativeSkippedSequences
 	o.lock.RUnlock()
+	n.rec.skipped = c.skippedSeqs
 	n.c = c
 	return &n
 }
@@ -389,10 +399,21 @@ func (s *vfC08Sim) tick() string {
 // check is the oracle, evaluated after every event. h0 = high-water mark before the event;
 // ev = index of the notification that just arrived (-1 for a timer tick); evWasArrived = it was a duplicate.
 func (s *vfC08Sim) check(h0 uint64, ev int, evWasArrived bool) string {
+	if bad := s.judgeDeliveries(s.rec.drain(), func(d vfC08Delivery, ni int) bool {
+		// late = the sequence had been given up on (skipped) before this event and arrives now
+		return ni == ev && !evWasArrived && s.notes[ni].from <= h0
+	}); bad != "" {
+		return bad
+	}
+	return s.judgeState(h0)
+}
+
+// judgeDeliveries validates what reached the channel cache, in delivery order. wantLate decides for a
+// delivery whether the statement requires it to be marked as a late arrival.
+func (s *vfC08Sim) judgeDeliveries(ds []vfC08Delivery, wantLateFn func(d vfC08Delivery, ni int) bool) string {
 	initial := s.initial
 	off := func(seq uint64) int { return int(seq - initial - 1) }
-	// deliveries to the channel cache during this event
-	for _, d := range s.rec.drain() {
+	for _, d := range ds {
 		if d.seq <= initial || d.seq > initial+uint64(s.w) {
 			return fmt.Sprintf("sequence %d, outside the window, was delivered to the channel cache", d.seq)
 		}
@@ -423,13 +444,16 @@ func (s *vfC08Sim) check(h0 uint64, ev int, evWasArrived bool) string {
 				return fmt.Sprintf("sequence %d (%s) was delivered to the channel cache twice", q, n)
 			}
 		}
-		// late = the sequence had been given up on (skipped) before this event and arrives now
-		wantLate := ni == ev && !evWasArrived && n.from <= h0
+		wantLate := wantLateFn(d, ni)
 		if d.skipped != wantLate {
 			if wantLate {
 				return fmt.Sprintf("%s arrived after being skipped but was delivered as a regular entry (Skipped=false)", n)
 			}
 			return fmt.Sprintf("%s was delivered as a late entry (Skipped=true) although it had not been skipped", n)
+		}
+		if d.skipped && n.kind != 'U' && !d.inSkippedAtDelivery {
+			// the gap must stay visible (stable sequence held back) until the late entry is readable
+			return fmt.Sprintf("%s arrived late: its sequence had already left the skipped list when the entry reached the channel cache (a reader in between sees the gap closed but no entry)", n)
 		}
 		if !d.skipped {
 			if lo <= s.lastNonLate {
@@ -438,6 +462,13 @@ func (s *vfC08Sim) check(h0 uint64, ev int, evWasArrived bool) string {
 			s.lastNonLate = hi
 		}
 	}
+	return ""
+}
+
+// judgeState checks the buffering invariants on the current state (h0 = earlier high-water mark).
+func (s *vfC08Sim) judgeState(h0 uint64) string {
+	initial := s.initial
+	off := func(seq uint64) int { return int(seq - initial - 1) }
 	h := s.high()
 	if h < h0 {
 		return fmt.Sprintf("next sequence moved backwards: %d after %d", h+1, h0+1)
